@@ -146,6 +146,7 @@ type WorkerStats struct {
 	WallS         float64             `json:"wall_s"`
 	Samples       []json.RawMessage   `json:"samples"`
 	Note          string              `json:"note,omitempty"`
+	Recycle       bool                `json:"recycle,omitempty"` // ended early to give memory back; the driver starts a successor
 	HarnessRaces  int                 `json:"harness_race_reports"`
 	OtherRaces    int                 `json:"library_race_reports_not_judged"`
 	Rule          string              `json:"rule"`
@@ -166,6 +167,20 @@ type Config struct {
 	KnownPath    string
 	ReplayDir    string
 	ShrinkBudget int
+}
+
+// rssMB is the resident set size of this process in MB (0 when unknown).
+func rssMB() int {
+	b, err := os.ReadFile("/proc/self/statm")
+	if err != nil {
+		return 0
+	}
+	f := strings.Fields(string(b))
+	if len(f) < 2 {
+		return 0
+	}
+	pages, _ := strconv.Atoi(f[1])
+	return pages * os.Getpagesize() >> 20
 }
 
 func envInt(k string, def int) int {
@@ -448,6 +463,9 @@ func RunWorker[P any](t *testing.T, cfg Config, eng *Engine[P]) {
 	sched := NewDistinct(1 << 17)
 	abs := NewDistinct(1 << 16)
 	debug.SetGCPercent(400)
+	if RaceBuild {
+		debug.SetGCPercent(150) // (the detector's shadow memory follows the peak of the heap and stays)
+	}
 	write := func() {
 		for i, n := range eng.ProbeNames {
 			if eng.Relevant == nil || eng.Relevant(n) || probes[i] != 0 {
@@ -488,6 +506,15 @@ func RunWorker[P any](t *testing.T, cfg Config, eng *Engine[P]) {
 		if i%16 == 0 && time.Since(start).Seconds() > cfg.MaxSecs {
 			break
 		}
+		if i%64 == 63 && rssMB() > envInt("VERIF_MAX_RSS_MB", 2000) {
+			// The race detector keeps per-goroutine state of the thousands of
+			// short-lived goroutines a worker creates and does not give it back;
+			// the driver starts a successor with a fresh process (and another
+			// PRNG value) for the time that is left.
+			st.Recycle = true
+			st.Note = fmt.Sprintf("process recycled after %d runs at %d MB resident", i+1, rssMB())
+			break
+		}
 		select {
 		case <-stop:
 			st.Note = "stopped by driver"
@@ -500,7 +527,11 @@ func RunWorker[P any](t *testing.T, cfg Config, eng *Engine[P]) {
 		res := exec(plan, false)
 		st.Runs++
 		if hashLog != nil {
-			fmt.Fprintf(hashLog, "%d %016x %016x %d\n", i, res.TraceHash, res.SchedHash, len(res.Violations))
+			if res.Long {
+				fmt.Fprintf(hashLog, "%d LONG %d\n", i, len(res.Violations))
+			} else {
+				fmt.Fprintf(hashLog, "%d %016x %016x %d\n", i, res.TraceHash, res.SchedHash, len(res.Violations))
+			}
 		}
 		st.SimNs += res.SimNs
 		st.Steps += int64(res.Steps)
